@@ -15,10 +15,16 @@ def isMultiRead : Call → Bool
   | .read n _ => n != 1
   | _ => false
 
-/-- On an initialised card every call except a multi-block read (which catches the error of
-its block loop in order to send CMD12) and `get_card_type` reports any SPI error as `Transport`. -/
+/-- Same body as `Sdmmc.Props.C13.isMultiWrite`. -/
+def isMultiWrite : Call → Bool
+  | .write blocks _ => blocks.length != 1
+  | _ => false
+
+/-- On an initialised card every call except a multi-block read or write (which catch the error
+of their block loop in order to send CMD12 / the stop token) and `get_card_type` reports any SPI
+error as `Transport`. -/
 theorem call_spi_transport_partial (c : Call) (s : St (σ × Transcript)) (hi : s.cardType.isSome)
-    (hc : c ≠ .cardType) (hm : isMultiRead c = false)
+    (hc : c ≠ .cardType) (hm : isMultiRead c = false) (hw : isMultiWrite c = false)
     (h : fails s < fails (call (recBus B) c s).2) : (call (recBus B) c s).1 = .err .Transport := by
   have hci := checkInit_of_some (recBus B) s hi
   cases c with
@@ -32,9 +38,13 @@ theorem call_spi_transport_partial (c : Call) (s : St (σ × Transcript)) (hi : 
     rw [this] at h ⊢
     exact (hs s).2 h
   | write blocks idx =>
-    have hs : SpiStrict (do write (recBus B) blocks idx; pure Answer.unit) :=
-      SpiStrict.bind (write_spi B _ _) fun _ => SpiStrict.pure _
-    have : call (recBus B) (.write blocks idx) s = (do write (recBus B) blocks idx; pure Answer.unit) s := by
+    obtain ⟨b, rfl⟩ : ∃ b, blocks = [b] := by
+      have hl : blocks.length = 1 := by simpa [isMultiWrite] using hw
+      match blocks, hl with
+      | [b], _ => exact ⟨b, rfl⟩
+    have hs : SpiStrict (do write (recBus B) [b] idx; pure Answer.unit) :=
+      SpiStrict.bind (write1_spi B _ _) fun _ => SpiStrict.pure _
+    have : call (recBus B) (.write [b] idx) s = (do write (recBus B) [b] idx; pure Answer.unit) s := by
       simp only [call]; rw [bind_ok hci]
     rw [this] at h ⊢
     exact (hs s).2 h
